@@ -59,6 +59,12 @@ class Hooks(W.Hooks):
             self.table_ops += 1
         if si.op in ("drop", "drop_cycle"):
             self.drops += 1
+        if si.kind == "write" and si.info.get("ok") and si.operands and si.operands[0].origin == "tuple":
+            b, a_ = si.info.get("before"), W.snap(si.operands[0].obj)
+            if b and b[2] and a_[2] and b[2][0] != a_[2][0]:
+                self.promoted_tuple_vectors = getattr(self, "promoted_tuple_vectors", 0) + 1
+        if si.op == "drop_tuple" and getattr(self, "promoted_tuple_vectors", 0):
+            ctx.label("caller_tuple_dropped_after_promotion")
         if si.kind != "write" or si.op == "attr_assign":
             if isinstance(si.exc, S.AliasError):
                 self.failed = ctx.fail(f"aliaserror-from-non-write/{si.op}", f"step {step}: {si.exc}")
@@ -131,6 +137,6 @@ def run(case, ctx):
 def parts(tier):
     mx = 30 if tier == "quick" else 60
     classes = ["construct", "view", "write", "lifetime", "derive", "rename"]
-    extra = ["vec_tuple"] * 14 + ["slice", "slice", "slice", "copy", "mask", "sort", "math", "set_slice", "set_mask", "attr_assign", "attr_assign", "set_int", "set_int", "set_slice", "drop", "churn", "gc", "rshift", "vec_of_vecs", "attr_assign"]
+    extra = ["vec_tuple"] * 14 + ["slice", "slice", "slice", "copy", "mask", "sort", "math", "set_slice", "set_mask", "attr_assign", "attr_assign", "drop_tuple", "drop_tuple", "set_int", "set_int", "set_slice", "drop", "churn", "gc", "rshift", "vec_of_vecs", "attr_assign"]
     return [Part("histories", run, strategy=lambda t: W.program(max_steps=mx, classes=classes, always=("construct", "write", "lifetime"), extra_ops=extra),
                  examples=(3000, 100000), shards=(12, 16), floors={"has_shared_pair": 0.12, "has_table_constructor": 0.5})]
